@@ -137,16 +137,20 @@ Start(t) ==
 \* ... and gets control back: it sees the persistent id of the entity it saved
 TopReturn(t) ==
   /\ t \in started /\ calls[<<t>>].ph = "top" /\ calls[<<t, shape.tops[t]>>].ph = "done"
-  /\ calls' = [calls EXCEPT ![<<t>>] = Rec("done", 0, NoRefs, pid[shape.tops[t]])]
+  /\ calls' = [calls EXCEPT ![<<t>>] = Rec("done", 0, pid, pid[shape.tops[t]])]      \* refs: every id as the caller finds it
   /\ UNCHANGED <<shape, pid, saving, nrows, started, nextid>>
 
 AllDone == started = Tops /\ \A c \in DOMAIN calls : calls[c].ph = "done"
 Terminated == AllDone /\ UNCHANGED svars
 
 Internal(c) == Enter(c) \/ StageDone(c) \/ Wake(c)
-Next == \/ \E c \in DOMAIN calls : Internal(c) \/ DbComplete(c)
-        \/ \E t \in Tops : Start(t) \/ TopReturn(t)
-        \/ Terminated
+DoEnter == \E c \in DOMAIN calls : Enter(c)
+DoStageDone == \E c \in DOMAIN calls : StageDone(c)
+DoWake == \E c \in DOMAIN calls : Wake(c)
+DoDbComplete == \E c \in DOMAIN calls : DbComplete(c)
+DoStart == \E t \in Tops : Start(t)
+DoTopReturn == \E t \in Tops : TopReturn(t)
+Next == DoEnter \/ DoStageDone \/ DoWake \/ DoDbComplete \/ DoStart \/ DoTopReturn \/ Terminated
 
 \* every task is blocked on a database call or on an event (the driver acts only then)
 Quiescent == \A c \in DOMAIN calls :
@@ -158,11 +162,9 @@ Quiescent == \A c \in DOMAIN calls :
 InFlight == {c \in DOMAIN calls : calls[c].ph \in {"db", "upddb"}}
 
 \* the schedules the conformance driver explores: database completions and late callers only when every task is blocked
-NextQ == \/ \E c \in DOMAIN calls : Internal(c)
-         \/ \E t \in Tops : TopReturn(t)
-         \/ Quiescent /\ (\E c \in DOMAIN calls : DbComplete(c))
-         \/ Quiescent /\ (\E t \in Tops : Start(t))
-         \/ Terminated
+QDbComplete == Quiescent /\ DoDbComplete
+QStart == Quiescent /\ DoStart
+NextQ == DoEnter \/ DoStageDone \/ DoWake \/ DoTopReturn \/ QDbComplete \/ QStart \/ Terminated
 
 InitOf(sh) == /\ shape = sh
               /\ pid = [n \in DOMAIN sh.kind |-> 0]
@@ -192,13 +194,16 @@ TokShape(oc, ac, bc, tp) ==
       tops  |-> tp]
 Parents(sh, n) == {p \in DOMAIN sh.kind : n \in SetOf(sh.reads[p])}
 SharedNodes(sh) == {n \in DOMAIN sh.kind : Cardinality(Parents(sh, n)) >= 2}
-TokShapes(ordered) ==
-  LET OC == {q \in InjSeqs({"a", "b", "s"}) : q # <<>> /\ (ordered \/ Sorted(q, <<"a", "b", "s">>))}
-      IC == {q \in InjSeqs({"s", "x"}) : ordered \/ Sorted(q, <<"s", "x">>)}
-      Raw == {<<oc, ac, bc>> \in OC \X IC \X IC : /\ ("a" \notin SetOf(oc) => ac = <<>>)
-                                                   /\ ("b" \notin SetOf(oc) => bc = <<>>)}
-      One == {TokShape(r[1], r[2], r[3], [T1 |-> "o"]) : r \in Raw}
-      Two == {TokShape(r[1], r[2], r[3], [T1 |-> "o", T2 |-> m]) : r \in Raw, m \in {"o", "a", "s"}}
+\* ordered: every order of the members (the first task created becomes the saver); otherwise one order per member set.
+\* small2: the two-caller graphs are limited to those without the private leaf x.
+TokShapes(ordered, small2) ==
+  LET OC(ord) == {q \in InjSeqs({"a", "b", "s"}) : q # <<>> /\ (ord \/ Sorted(q, <<"a", "b", "s">>))}
+      IC(ord) == {q \in InjSeqs({"s", "x"}) : ord \/ Sorted(q, <<"s", "x">>)}
+      Raw(ord) == {r \in OC(ord) \X IC(ord) \X IC(ord) : /\ ("a" \notin SetOf(r[1]) => r[2] = <<>>)
+                                                         /\ ("b" \notin SetOf(r[1]) => r[3] = <<>>)}
+      One == {TokShape(r[1], r[2], r[3], [T1 |-> "o"]) : r \in Raw(ordered)}
+      Two == {TokShape(r[1], r[2], r[3], [T1 |-> "o", T2 |-> m]) :
+                r \in {q \in Raw(FALSE) : small2 => "x" \notin SetOf(q[2]) \cup SetOf(q[3])}, m \in {"o", "a", "s"}}
   IN {sh \in One : SharedNodes(sh) # {}} \cup {sh \in Two : sh.tops["T2"] \in DOMAIN sh.kind}
 
 (* Workflows (an explicit catalogue; pre / post / reads transcribe the save methods of the classes named in `cls`) *)
@@ -254,9 +259,10 @@ WfOutproc ==
       tops |-> [T1 |-> "w"]]
 WfShapes == {WfSavers, WfBinding, WfDeploy, WfOutproc}
 
-SaveShapes == CASE SFamily = "quick" -> TokShapes(FALSE) \cup WfShapes
-                [] SFamily = "full" -> TokShapes(TRUE) \cup WfShapes
-                [] SFamily = "tokens" -> TokShapes(FALSE)
+SaveShapes == CASE SFamily = "quick" -> TokShapes(FALSE, TRUE) \cup WfShapes
+                [] SFamily = "full" -> TokShapes(TRUE, FALSE) \cup WfShapes
+                [] SFamily = "tokens" -> TokShapes(FALSE, TRUE)
+                [] SFamily = "tokensfull" -> TokShapes(TRUE, FALSE)
                 [] SFamily = "wf" -> WfShapes
                 [] OTHER -> {}
 
@@ -271,7 +277,14 @@ SaveTypeOK == /\ \A n \in Nodes : pid[n] \in 0..(nextid - 1) /\ saving[n] \in {"
 
 \* save() gives control back only when the entity has its persistent id (every caller reads it straight away)
 SaveReturnsWithId == \A c \in DOMAIN calls : calls[c].ph = "done" /\ (IsTop(c) \/ HasRow(NodeOf(c))) => calls[c].seen # 0
-TopReturnsWithId == \A t \in started : calls[<<t>>].ph = "done" => calls[<<t>>].seen # 0
+\* ... and everything the entity saves along with itself is persisted too (the caller may load it straight away)
+RECURSIVE ReachSet(_)
+ReachSet(S) == LET T == S \cup {m \in Nodes : \E p \in S : \E part \in {"pre", "post"} :
+                                               \E i \in 1..Len(StagesOf(p, part)) : m \in SetOf(StagesOf(p, part)[i])}
+               IN IF T = S THEN S ELSE ReachSet(T)
+TopReturnsWithId == \A t \in started : calls[<<t>>].ph = "done" =>
+                      /\ calls[<<t>>].seen # 0
+                      /\ \A m \in ReachSet({shape.tops[t]}) : HasRow(m) => calls[<<t>>].refs[m] # 0
 
 \* the row of an entity refers to the rows of the entities it holds: no null / stale reference is ever written
 RefsResolved == \A c \in InFlight : \A m \in SetOf(shape.reads[NodeOf(c)]) : calls[c].refs[m] # 0 /\ calls[c].refs[m] = pid[m]
